@@ -37,6 +37,7 @@ def main():
             continue
         pid = name.split('-')[0]
         sh('git checkout -- .', cwd=wt)
+        sh('git checkout -- lean/Librfn/Gen', cwd=VERIF)     # a unit the translator refuses keeps its file: start every change from the pinned one
         rc, out = sh(['git', 'apply', os.path.join(VERIF, sub, name, 'patch.diff')], cwd=wt)
         if rc != 0:
             res[name] = {'kind': 'does-not-apply', 'why': out[-200:]}
